@@ -471,3 +471,8 @@ func opsString(ops []qOp) string {
 	}
 	return s
 }
+
+// RequiredProbes: a batch in which one of these never fired explored nothing of that kind (exit 2, not a pass).
+func (c15) RequiredProbes() []string {
+	return []string{"crossed-packet-boundary", "enumerated", "side:send", "side:recv"}
+}
